@@ -107,7 +107,7 @@ CSSMATCH = ObjType('CSSMatch',
                               is_xml=BOOL, is_html=BOOL),
                    # per-call state: the namespace map / iframe flag swapped around HTML-only lists, and the three memo tables
                    mut=dict(namespaces=NSMAP, iframe_restrict=BOOL, cached_default_forms=TSeq(TTup(NODE, NODE)),
-                            cached_meta_lang=TSeq(INT), cached_indeterminate_forms=TSeq(INT)),
+                            cached_meta_lang=TSeq(TTup(NODE, TOpt(STR))), cached_indeterminate_forms=TSeq(INT)),
                    cls_qual='soupsieve.css_match.CSSMatch')
 
 
